@@ -17,6 +17,38 @@ OUT = os.environ.get('SX_OUT', VERIF if REPO == '/repo' else os.path.join(REPO, 
 
 EXIT_OK, EXIT_VIOLATION, EXIT_INCONCLUSIVE = 0, 1, 2
 
+_DEFINED = []
+
+
+def defined_names():
+    """qualified names ('pkg.mod:Class.func') of every function defined in the current source of the package"""
+    if not _DEFINED:
+        import ast
+        names = set()
+        root = os.path.join(REPO_PY, 'pydiffx')
+        for d, _, fs in os.walk(root):
+            for f in fs:
+                if not f.endswith('.py') or os.sep + 'tests' in d:
+                    continue
+                path = os.path.join(d, f)
+                mod = os.path.relpath(path, REPO_PY)[:-3].replace(os.sep, '.')
+                try:
+                    tree = ast.parse(open(path, encoding='utf-8').read())
+                except SyntaxError:
+                    continue
+
+                def walk(node, stack):
+                    for ch in ast.iter_child_nodes(node):
+                        if isinstance(ch, (ast.FunctionDef, ast.AsyncFunctionDef, ast.ClassDef)):
+                            if not isinstance(ch, ast.ClassDef):
+                                names.add('%s:%s' % (mod, '.'.join(stack + [ch.name])))
+                            walk(ch, stack + [ch.name])
+                        else:
+                            walk(ch, stack)
+                walk(tree, [])
+        _DEFINED.append(names)
+    return _DEFINED[0]
+
 
 def to_json(v):
     if isinstance(v, (bytes, bytearray)):
@@ -193,6 +225,9 @@ def run_check(pid, tier, seed):
         signal.setitimer(signal.ITIMER_PROF, 600)        # CPU time of this process
         try:
             validated = int(hm.validate(tier))
+            # every regex the package currently holds (found by reflection) against the native engine
+            from . import selftest as _st
+            validated += _st.validate_loaded_patterns()
             signal.setitimer(signal.ITIMER_PROF, 0)
             log('  validation of models/translation against the real code: %d concrete runs agree' % validated)
         except _ValidationTimeout:
@@ -266,6 +301,14 @@ def run_check(pid, tier, seed):
         ob_reports.append(rep)
         if agg.errors:
             inconclusive.append('%s: harness error: %s' % (ob.name, agg.errors[0]))
+        declined = ob.may_decline and agg.unmodelled and not agg.viols and not agg.errors
+        if declined:
+            why = '; '.join('%s (%d paths)' % (w, n) for w, n in list(agg.unmodelled.items())[:3])
+            rep['declined'] = why
+            skipped.append({'obligation': ob.name, 'reason': 'declined: the current source uses operations the '
+                            'abstraction of this obligation does not model: ' + why})
+            log('  DECLINED %s: %s' % (ob.name, why))
+            continue
         for w, n in agg.unmodelled.items():
             inconclusive.append('%s: %s (%d paths)' % (ob.name, w, n))
         if not ob.allow_cut:
@@ -283,6 +326,11 @@ def run_check(pid, tier, seed):
             inconclusive.append('%s: vacuous (no path reached a verdict)' % ob.name)
         for need in ob.must_reach:
             if not any(r.endswith(need) or need in r for r in agg.reached):
+                if need.split('.')[-1].split(':')[-1].startswith('_') and not any(need in d for d in defined_names()):
+                    # a private helper that the current source no longer has (renamed / merged by a refactoring):
+                    # the vacuity guard falls back to "some path reached a verdict" (checked above)
+                    rep.setdefault('must_reach_dropped', []).append(need)
+                    continue
                 inconclusive.append('%s: never reached %s under instrumentation' % (ob.name, need))
         # replay every distinct counterexample (up to a cap) on the uninstrumented code, one
         # fresh process per obligation
@@ -421,7 +469,7 @@ def run_check(pid, tier, seed):
         return EXIT_VIOLATION
     if inconclusive:
         for i in inconclusive[:12]:
-            log('  INCONCLUSIVE: %s' % i[:600])
+            log('  INCONCLUSIVE: %s' % (i if len(i) <= 900 else i[:200] + ' ... ' + i[-700:]))
         return EXIT_INCONCLUSIVE
     return EXIT_OK
 
